@@ -187,6 +187,16 @@ def run_triple(ctx, p):
     if packed[0] == 'exc':
         ctx.ood('triple')
         return
+    def kinds(r):
+        d_ = getattr(r, 'data', None)
+        arrs = d_ if isinstance(d_, list) else [r]
+        return [np.asarray(x).dtype.kind for x in arrs if isinstance(x, np.ndarray)]
+    # element type of the result is part of the result: an integer matrix truncates whatever is written into it later
+    ints = [float(round(x)) for x in v]
+    pk, sc_ = attempt(e, [[int(x) for x in ints]] + list(args[1:]), kwargs, None), attempt(e, [int(x) for x in ints] + list(args[1:]), kwargs, None)
+    if pk[0] == 'ok' and sc_[0] == 'ok':
+        ctx.judge('triple', kinds(pk[1]) == kinds(sc_[1]), dict(sig, kind='call_forms_differ_in_dtype'),
+                  lambda: '%s with integer values: packed form gives dtype kinds %s, separate scalars give %s' % (e['name'], kinds(pk[1]), kinds(sc_[1])))
     ctx.judge('triple', same(packed[1], scal[1]), dict(sig, kind='call_forms_differ'),
               lambda: '%s(%s): packed vector gives %s, separate scalars give %s' % (e['name'], v, core.short(getattr(packed[1], 'data', packed[1]), 300), core.short(getattr(scal[1], 'data', scal[1]), 300)))
     ctx.cell('triple', e['name'])
